@@ -9,9 +9,8 @@
                 if I starts with ( ) * + then I is that one byte            (deviation 2)
      wf_csi b : s = '[' :: b, b = P ++ I ++ [F], P parameters, I intermediates, F final,
                 not (P is [<=>?]? (digit|;)* and I starts with '%')         (deviation 1)
-     wf_osc s : s = ']' digits ';' payload term,  term = BEL | 0x9C | ESC \,
-                payload has no BEL, no 0x9C, no "ESC \"                     (deviation 3)
-                or s = ']' digits (BEL | 0x9C)
+     wf_osc s : s = ']' body term,  term = BEL | 0x9C | ESC \, any body that has
+                no BEL, no 0x9C, no "ESC \"                                 (deviation 3)
      wf_dcs s : s = 'P' payload term, term = 0x9C | ESC \, payload has no 0x9C, no "ESC \"
    Deviations of the tokenizer from the full grammar, each with a witness below:
      1. '%' directly after plain parameters is taken as the CSI final byte
@@ -19,7 +18,7 @@
      2. "ESC ( I F" with a second intermediate: only three bytes are taken;
      3. 0x9C ends an OSC / DCS string even inside a UTF-8 character of the payload;
      4. a control byte inside CSI parameters is taken as the final byte;
-     5. an OSC without a numeric selector is abandoned after one byte;
+     5. (repaired, D60: every OSC body is now skipped to its terminator)
      6. SOS / PM / APC (ESC X, ESC ^, ESC _) are two-byte escapes, their body is text. *)
 From Coq Require Import List ZArith Bool.
 From Termemu Require Import Base Style Screen Kbd Parser Term BaseLemmas ParserProofs ParserMono
@@ -225,11 +224,18 @@ Theorem C09_csi_ends_token : forall pfx D F post,
 Proof. exact csi_ends_token. Qed.
 Print Assumptions C09_csi_ends_token.
 
-(* 5. "ESC ] l t BEL" *)
-Theorem C09_osc_nonnumeric_refuted :
-  parse_one (fun _ => 1) false [27; 93; 108; 116; 7] = PTok TIgnore [116; 7].
-Proof. exact osc_nonnumeric_refuted. Qed.
-Print Assumptions C09_osc_nonnumeric_refuted.
+(* 5. (repaired, D60) "ESC ] l t BEL" and "ESC ] 112 ESC \" used to be abandoned after one byte;
+   every OSC string is now one token that ends at its terminator, whatever its body *)
+Theorem C09_osc_any_body : forall body term post, osc_clean 0 body = true -> osc_term term ->
+  exists k, parse_osc (body ++ term ++ post) = PTok k post /\ (k = TIgnore \/ exists n p, k = TOsc n p).
+Proof. exact osc_any_consumed. Qed.
+Print Assumptions C09_osc_any_body.
+
+Theorem C09_osc_nonnumeric_skipped :
+  parse_one (fun _ => 1) false [27; 93; 108; 116; 7; 120] = PTok TIgnore [120] /\
+  parse_one (fun _ => 1) false [27; 93; 49; 49; 50; 27; 92; 120] = PTok TIgnore [120].
+Proof. exact osc_nonnumeric_skipped. Qed.
+Print Assumptions C09_osc_nonnumeric_skipped.
 
 (* 6. "ESC _ G ESC \" (APC) *)
 Theorem C09_apc_refuted :
